@@ -91,6 +91,12 @@ def make_bank(rng, cont, enc, parens=False):
         words += ['Übung', 'übung', 'café', 'Ärger']
         if enc == 'utf-8' and rng.random() < 0.5:
             words += ['Жук', '日本']
+        if enc == 'utf-8' and rng.random() < 0.5:
+            # the same word spelled with composed and with decomposed
+            # characters, a ligature and its letters, full-width letters:
+            # different words for the tool, whatever Unicode calls equivalent
+            words += ['Caf\u00e9', 'Cafe\u0301', '\u00c5', 'A\u030a',
+                      '\ufb01n', 'fin', '\uff21\uff22', 'AB']
     pools = gen.Pools(words=words,
                       cats=rng.choice([['S', 'NP', 'VP'], ['S', 'NP', 'VP', 'PP', 'CNP'],
                                        ['S', '1N', '2V', 'NP', "N'", 'A,B', 'A:B',
